@@ -280,11 +280,11 @@ func goFromHex(s string) string {
 		if err == nil {
 			via = "ok " + p.InputHash.String()
 		} else if classify(err) != "invalid" {
-			panic(fmt.Sprintf("fromHex cross-check: unexpected error %v for %q", err, s))
+			via = "err-unexpected-class:" + classify(err)
 		}
-		if via != res {
-			panic(fmt.Sprintf("fromHex cross-check: SetString %q vs UnmarshalJSON %q for %q", res, via, s))
-		}
+		// the repository's own fromHex is the code under test: report what IT does (math/big's
+		// SetString is only what the unchanged code happens to delegate to)
+		return via
 	}
 	return res
 }
